@@ -13,6 +13,7 @@ import (
 	"sort"
 
 	"github.com/containerd/nri/pkg/api"
+	"google.golang.org/protobuf/proto"
 
 	"verifharness/internal/tr"
 )
@@ -45,7 +46,13 @@ func (p *Prepared) Call() (r Reply) {
 	return p.call(context.Background())
 }
 
+func cloneCtr(c *api.Container) *api.Container { return proto.Clone(c).(*api.Container) }
+func clonePod(p *api.PodSandbox) *api.PodSandbox { return proto.Clone(p).(*api.PodSandbox) }
+
 // Prepare does the environment's bookkeeping for the request and builds the NRI objects (mirror of World.exec).
+// Unlike World.exec it hands COPIES of the environment's pod and container objects to the handlers (the cache keeps the
+// object it is given): Commit folds what was told into the environment's objects only after the round, which must not
+// write through into the cache.
 func (w *World) Prepare(o Op) *Prepared {
 	p := &Prepared{Op: o, Known: true}
 	h := w.H
@@ -69,7 +76,8 @@ func (w *World) Prepare(o Op) *Prepared {
 		}
 		pr := &podRec{spec: s, nri: w.mkPod(o.Pod, s)}
 		w.pods[o.Pod] = pr
-		p.call = func(ctx context.Context) Reply { return Reply{Err: h.RunPodSandbox(ctx, pr.nri)} }
+		arg := clonePod(pr.nri)
+		p.call = func(ctx context.Context) Reply { return Reply{Err: h.RunPodSandbox(ctx, arg)} }
 	case "StopPod":
 		pd := pod()
 		p.call = func(ctx context.Context) Reply { return Reply{Err: h.StopPodSandbox(ctx, pd)} }
@@ -85,8 +93,9 @@ func (w *World) Prepare(o Op) *Prepared {
 		c.nri = w.mkCtr(o.C, o.Pod, s, api.ContainerState_CONTAINER_CREATED)
 		w.ctrs[o.C] = c
 		pd := pod()
+		arg := cloneCtr(c.nri)
 		p.call = func(ctx context.Context) Reply {
-			a, u, err := h.CreateContainer(ctx, pd, c.nri)
+			a, u, err := h.CreateContainer(ctx, pd, arg)
 			return Reply{Adj: a, Upd: u, Err: err}
 		}
 	case "Start":
@@ -127,7 +136,7 @@ func (w *World) Prepare(o Op) *Prepared {
 		pods := []*api.PodSandbox{}
 		for _, id := range o.Pods {
 			if pr, ok := w.pods[id]; ok {
-				pods = append(pods, pr.nri)
+				pods = append(pods, clonePod(pr.nri))
 			} else {
 				pods = append(pods, w.mkPod(id, PodSpec{NS: "default", QoS: "BestEffort"}))
 			}
@@ -151,9 +160,9 @@ func (w *World) Prepare(o Op) *Prepared {
 				st = api.ContainerState_CONTAINER_UNKNOWN
 			}
 			if c, ok := w.ctrs[id]; ok {
-				cc := *c.nri
+				cc := cloneCtr(c.nri)
 				cc.State = st
-				ctrs = append(ctrs, &cc)
+				ctrs = append(ctrs, cc)
 			} else {
 				ctrs = append(ctrs, w.mkCtr(id, "", CtrSpec{}, st))
 			}
